@@ -30,7 +30,9 @@ type Skeleton struct {
 	TwoCalls bool
 	// AllOrders forks over map iteration orders.
 	AllOrders bool
-	// ExpectResolveError: the oracle says some reference designates nothing.
+	// ResolveMayRefuse: the package documents that it may refuse this arrangement
+	// (any error is acceptable, success must still hit the designated targets).
+	ResolveMayRefuse bool
 }
 
 // Finding is a reproduced disagreement between the real package and the oracle.
@@ -73,6 +75,15 @@ type SkelResult struct {
 	Elapsed        time.Duration
 	SkelError      string
 	SharedWrites   []string
+	ResolveErrorAgreed bool // native Resolve and the oracle both say some reference designates nothing
+	ResolveRefused     bool // the package refused a schema its documentation says it may refuse
+}
+
+func expectResolve(oerr error) string {
+	if oerr != nil {
+		return "Resolve returns an error (" + oerr.Error() + ")"
+	}
+	return "Resolve succeeds"
 }
 
 type VOptions struct {
@@ -175,9 +186,38 @@ func (w *Worker) RunValidateSkeleton(sk *Skeleton, opt VOptions) *SkelResult {
 	if opt.MaxFindings == 0 {
 		opt.MaxFindings = 3
 	}
-	rs, _, err := NativeResolve(sk)
+	rs, counts, err := NativeResolve(sk)
+	rr, rerr := refsem.NewResolver([]byte(sk.Doc), sk.BaseURI, refsem.MapLoader(universeBytes(sk.Universe)), sk.Draft)
+	var oerr error = rerr
+	if rerr == nil {
+		oerr = rr.CheckAllRefs()
+	}
+	for uri, n := range counts {
+		if n > 1 {
+			res.Findings = append(res.Findings, Finding{Property: opt.Property, Kind: "loader-called-twice", Skeleton: sk.Name, Family: sk.Family, Doc: sk.Doc, BaseURI: sk.BaseURI, Universe: sk.Universe, Draft: sk.Draft,
+				Expected: "each remote document requested at most once", Observed: fmt.Sprintf("%s requested %d times", uri, n)})
+		}
+	}
+	if err != nil && strings.HasPrefix(err.Error(), "PANIC:") {
+		res.Findings = append(res.Findings, Finding{Property: opt.Property, Kind: "resolve-panic", Skeleton: sk.Name, Family: sk.Family, Doc: sk.Doc, BaseURI: sk.BaseURI, Universe: sk.Universe, Draft: sk.Draft,
+			Expected: expectResolve(oerr), Observed: err.Error()})
+		return res
+	}
+	if (err != nil) != (oerr != nil) {
+		if sk.ResolveMayRefuse && err != nil {
+			res.ResolveRefused = true
+			return res
+		}
+		obs := "Resolve succeeded"
+		if err != nil {
+			obs = "Resolve failed: " + err.Error()
+		}
+		res.Findings = append(res.Findings, Finding{Property: opt.Property, Kind: "resolve-mismatch", Skeleton: sk.Name, Family: sk.Family, Doc: sk.Doc, BaseURI: sk.BaseURI, Universe: sk.Universe, Draft: sk.Draft,
+			Expected: expectResolve(oerr), Observed: obs})
+		return res
+	}
 	if err != nil {
-		res.SkelError = "native resolve: " + err.Error()
+		res.ResolveErrorAgreed = true
 		return res
 	}
 	solver0 := w.S.Stats
@@ -185,11 +225,6 @@ func (w *Worker) RunValidateSkeleton(sk *Skeleton, opt VOptions) *SkelResult {
 	m.AllOrders = sk.AllOrders
 	m.TrackShared = true
 	res.Stats = m.Stats
-	rr, err := refsem.NewResolver([]byte(sk.Doc), sk.BaseURI, refsem.MapLoader(universeBytes(sk.Universe)), sk.Draft)
-	if err != nil {
-		res.SkelError = "oracle resolver: " + err.Error()
-		return res
-	}
 	orc := refsem.NewOracle(m, rr)
 	root := m.NewNode("I", sk.Tm)
 	spec := orc.Valid(refsem.NodeInst{M: m, N: root})
